@@ -66,12 +66,15 @@ TOL_Q = 1e-9
 LIB_TOL = 1e-7
 ROT_NOISE = 1e-7  # rad; arccos(1 - k*1.1e-16) = 1.5e-8*sqrt(k)
 REACH = 0.15
+PLACE_RATIOS = [0.0, 0.0, 1e3, 1e5, 2e6]
+EPS = 2.220446049250313e-16
 
 # --------------------------------------------------------------------------------------------------
 # generators
 
 DIMS = [(2, 1, 1), (1, 2, 1), (1, 1, 2), (2, 2, 1), (2, 1, 2), (1, 2, 2), (2, 2, 1), (3, 1, 1), (2, 2, 2)]
 DIMS_SMALL = [(2, 1, 1), (1, 2, 1), (1, 1, 2), (2, 2, 1)]
+DIMS_ROW = [(2, 1, 1), (3, 1, 1), (1, 3, 1), (2, 2, 1), (1, 1, 3)]  # cells with face-neighbours that miss most vertices
 
 _vindex = st.one_of(st.just(0), st.integers(0, 199))
 
@@ -127,13 +130,16 @@ def _run_params(draw, links: bool, fault: bool, method: Optional[str] = None) ->
         "method": method or draw(st.sampled_from(METHODS)),
         "iters": draw(st.integers(1, 3)),
         "tolerance": draw(st.sampled_from([0.1, 1e-3])),
+        # the whole model (with its manifolds and links) sits this many model sizes from the origin, in a general direction
+        "place": {"dir": draw(xm.vec3), "ratio": draw(st.sampled_from(PLACE_RATIOS))},
         "fault": draw(st.floats(0.0, 0.999)) if fault else None,
     }
     return out
 
 
 @st.composite
-def mesh_case(draw, links: bool = False, fault: bool = False, dims_pool=None, method: Optional[str] = None):
+def mesh_case(draw, links: bool = False, fault: bool = False, dims_pool=None, method: Optional[str] = None,
+              premin: bool = False):
     dims = draw(st.sampled_from(dims_pool or DIMS))
     ncell = dims[0] * dims[1] * dims[2]
     nn = (dims[0] + 1) * (dims[1] + 1) * (dims[2] + 1)
@@ -146,7 +152,13 @@ def mesh_case(draw, links: bool = False, fault: bool = False, dims_pool=None, me
         "offset": [draw(st.floats(-3.0, 3.0)) for _ in range(3)],
         "chops": [],
     }
-    return {"kind": "mesh", "lat": lat, **_run_params(draw, links, fault, method)}
+    case = {"kind": "mesh", "lat": lat, **_run_params(draw, links, fault, method)}
+    if premin:
+        # free clamps only, not on vertex 0 by default: any vertex whose cells have a face-neighbour that does not
+        # contain it will do, and the start is moved to the minimum of the summed quality before the optimizer is built
+        case["clamps"] = [{"v": draw(st.integers(0, 199)), "m": {"type": "free"}} for _ in case["clamps"][:2]]
+        case["premin"] = True
+    return case
 
 
 @st.composite
@@ -216,20 +228,59 @@ class Model:
         import classy_blocks as cb
 
         self.kind = case["kind"]
+        place = case.get("place") or {"dir": [0.0, 0.0, 0.0], "ratio": 0.0}
         if self.kind == "mesh":
-            built = lt.build(case["lat"], with_chops=False)
+            lat = dict(case["lat"])
+            extent = max(sum(w) for w in lat["widths"])
+            shift = place["ratio"] * extent * xm.unit(xm.fix_vec(place["dir"])) if place["ratio"] else np.zeros(3)
+            lat["offset"] = (np.asarray(lat.get("offset") or [0.0] * 3, float) + shift).tolist()
+            built = lt.build(lat, with_chops=False)
             self.target = built.mesh
             self.target.assemble()
-            self.size = min(min(w) for w in case["lat"]["widths"])
+            self.size = min(min(w) for w in lat["widths"])
+            if case.get("premin"):
+                self.preminimise(case)
             self.optimizer = cb.MeshOptimizer(self.target, report=False)
-            self.topology = "mesh:" + "x".join(map(str, case["lat"]["dims"]))
+            self.topology = "mesh:" + "x".join(map(str, lat["dims"]))
         else:
             pts, quads, self.size = sketch_geometry(case["sk"])
+            extent = float(np.max(np.ptp(pts, axis=0)))
+            if place["ratio"]:
+                pts = pts + place["ratio"] * extent * xm.unit(xm.fix_vec(place["dir"]))
             self.target = cb.MappedSketch(pts, quads)
             self.optimizer = cb.SketchOptimizer(self.target, report=False)
             sk = case["sk"]
             self.topology = "sketch:" + (sk["topo"] if sk["topo"] == "disk" else "x".join(map(str, sk["n"])))
         self.addressing = [list(c.indexes) for c in self.optimizer.grid.cells]
+
+    def preminimise(self, case) -> None:
+        """moves the vertices that will be clamped to (about) the minimum of the SUMMED quality, with the harness's own
+        scipy loop over a grid of its own: the optimizer then starts where only the roll-back keeps it from doing harm
+        (it minimises the quality of the cells at the vertex, whose minimum lies elsewhere)"""
+        import scipy.optimize
+        from classy_blocks.optimize.grid import HexGrid
+
+        points = np.array([np.array(v.position, dtype=float) for v in self.target.vertices])
+        grid = HexGrid(points, [list(b.indexes) for b in self.target.blocks])
+        clamp_idx, _ = pick_vertices(case, len(points))
+        for _sweep in range(2):
+            for vi in clamp_idx:
+                start = grid.points[vi].copy()
+
+                def summed(x, vi=vi):
+                    grid.points[vi] = x
+                    try:
+                        return float(grid.quality)
+                    except ValueError:
+                        return 1e30
+
+                best = scipy.optimize.minimize(summed, start, method="Nelder-Mead",
+                                               options={"xatol": 1e-7 * self.size, "fatol": 1e-12, "maxfev": 600,
+                                                        "initial_simplex": start + 0.05 * self.size * np.vstack([np.zeros(3), np.eye(3)])})
+                grid.points[vi] = best.x if best.fun < summed(start) else start
+        for vi in clamp_idx:
+            self.target.vertices[vi].move_to(grid.points[vi])
+        warnings.simplefilter("ignore")
 
     def positions(self) -> np.ndarray:
         if self.kind == "mesh":
@@ -371,6 +422,8 @@ def run_and_check(case, ctx: Ctx, fault_at: Optional[int]) -> Probe:
     facts: Dict[str, Any] = {"target": model.kind, "topology": model.topology, "method": case["method"],
                              "iters": case["iters"], "fault": fault_at is not None}
 
+    coord_noise = 100 * EPS * float(np.max(np.abs(before)))  # float64 resolution of the coordinates themselves
+
     # --- links first (the first coaxial rotation link replaces the leader's manifold by a circle about its axis)
     leader_idx = clamp_idx[0]
     links_abs: List[Dict[str, Any]] = []
@@ -413,9 +466,12 @@ def run_and_check(case, ctx: Ctx, fault_at: Optional[int]) -> Probe:
         except Exception as ex:
             raise Violation("setup-raised", f"{absolute['type']} link raised {type(ex).__name__}: {ex}", **facts) from None
         if attached[0]:
-            want = xm.expected_follower(absolute, before[leader_idx], before[fi], snapped[leader_idx])
-            if want is not None:
-                snapped[fi] = want
+            # where the library's own link puts the follower for the snapped leader (bit-exact state the optimizer can
+            # return to; the relation itself is judged against the independent reference further down)
+            twin = xm.make_link(absolute, np.array(before[leader_idx]), np.array(before[fi]))
+            twin.leader = np.array(snapped[leader_idx])
+            twin.update()
+            snapped[fi] = np.asarray(twin.follower, dtype=float)
 
     try:
         q_before = model.quality_of(before)
@@ -428,7 +484,8 @@ def run_and_check(case, ctx: Ctx, fault_at: Optional[int]) -> Probe:
                 worst = 0.0
                 for turn in (ROT_NOISE, -ROT_NOISE):
                     state = snapped.copy()
-                    state[fi] = apply(m_rotate(turn, absolute["axis"], absolute["origin"]), snapped[fi])
+                    o = np.asarray(absolute["origin"], float)
+                    state[fi] = o + apply(m_rotate(turn, absolute["axis"], np.zeros(3)), snapped[fi] - o)
                     worst = max(worst, model.quality_of(state) - q_snapped)
                 noise += worst
         q_snapped += noise
@@ -498,11 +555,11 @@ def run_and_check(case, ctx: Ctx, fault_at: Optional[int]) -> Probe:
         x = after[vi]
         f = dict(facts, clamp=man.kind, bounded=bool(man.bounded), vertex=vi)
         res = man.residual(x)
-        if not res <= TOL_MANIFOLD * size:
+        if not res <= TOL_MANIFOLD * size + coord_noise:
             raise Violation("off-manifold", f"vertex {vi} ({man.kind} clamp) ends {res:.3g} off its manifold at "
                             f"{x.tolist()}", residual=res / size, **f)
         exc = man.bounds_excess(x)
-        if not exc <= TOL_BOUNDS * size:
+        if not exc <= TOL_BOUNDS * size + coord_noise:
             raise Violation("outside-bounds", f"vertex {vi} ({man.kind} clamp) ends {exc:.3g} outside its bounds at "
                             f"{x.tolist()}", excess=exc / size, **f)
         if float(np.linalg.norm(x - before[vi])) > 1e-6 * size:
@@ -519,9 +576,9 @@ def run_and_check(case, ctx: Ctx, fault_at: Optional[int]) -> Probe:
             continue
         scale = size + float(np.linalg.norm(before[fi] - before[leader_idx]))
         if absolute["type"] == "rotation":
-            tol = TOL_ROT * (scale + float(np.linalg.norm(before[fi] - np.asarray(absolute["origin"]))))
+            tol = TOL_ROT * (scale + float(np.linalg.norm(before[fi] - np.asarray(absolute["origin"])))) + coord_noise
         else:
-            tol = TOL_LINK * (scale + float(np.linalg.norm(after[leader_idx])))
+            tol = TOL_LINK * (scale + float(np.linalg.norm(after[leader_idx] - before[leader_idx]))) + coord_noise
         err = float(np.linalg.norm(after[fi] - want))
         if not err <= tol:
             raise Violation("link-relation", f"{absolute['type']} link {k + 1} of {len(links_abs)}: leader {leader_idx} at "
@@ -546,6 +603,9 @@ def run_and_check(case, ctx: Ctx, fault_at: Optional[int]) -> Probe:
 
     ctx.nt(moved_any or probe.rollbacks > 0 or probe.skips > 0 or probe.fired)
     ctx.label("method=" + case["method"], f"iters={case['iters']}")
+    ctx.label("placed-at=%g" % (case.get("place") or {}).get("ratio", 0.0))
+    if case.get("premin"):
+        ctx.label("starts-near-minimum")
     if probe.rollbacks:
         ctx.label("rollback")
     if probe.skips:
@@ -673,6 +733,24 @@ FIXED_SKETCH_LINKS += [
     _case("sketch", _SK, [{"v": 0, "m": _FREE}], "Powell", iters=1,
           links=[dict(_L_SYM, f=2), dict(_L_ROT, f=6), dict(_L_TRANS, f=8)]),
 ]
+# far from the origin: vertex spacing / coordinate ~ 1e-7; the clamp is not on the lowest-numbered vertex
+_FAR = {"dir": [0.5, -0.7, 0.4], "ratio": 2e6}
+FIXED_MESH += [
+    dict(_case("mesh", _lat((2, 1, 1), _ALL), [{"v": 5, "m": _FREE}, {"v": 9, "m": _LINE_TIGHT}], "SLSQP"), place=_FAR),
+    dict(_case("mesh", _lat((2, 1, 1), _ALL), [{"v": 7, "m": _FREE}], "L-BFGS-B", iters=1),
+         place={"dir": [-0.3, 0.6, 0.8], "ratio": 1e5}),
+]
+FIXED_SKETCH += [
+    dict(_case("sketch", _SK, [{"v": 4, "m": _FREE}, {"v": 8, "m": _FREE}], "SLSQP"), place=_FAR),
+]
+FIXED_MESH_LINKS += [
+    dict(_case("mesh", _lat((2, 1, 1), _ALL), [{"v": 3, "m": _FREE}], "SLSQP",
+               links=[dict(_L_SYM, f=7), dict(_L_ROT, f=9), dict(_L_TRANS, f=5)]), place=_FAR),
+]
+FIXED_NEAR_MINIMUM = [
+    dict(_case("mesh", _lat((3, 1, 1), {k: [0.9, -0.7, 0.8] if k % 2 else [-0.6, 0.8, -0.9] for k in range(16)}),
+               [{"v": 0, "m": _FREE}, {"v": 5, "m": _FREE}], "SLSQP"), premin=True),
+]
 FIXED_FAULT_MESH = [
     dict(_case("mesh", _lat((2, 1, 1), _ALL), [{"v": 0, "m": _FREE}, {"v": 1, "m": _FREE}], "SLSQP"), fault=f)
     for f in (0.0, 0.45, 0.8)
@@ -694,6 +772,10 @@ CELLS += [
          "MeshOptimizer with one Translation / Rotation / Symmetry link from the first clamped vertex", FIXED_MESH_LINKS),
     Cell("C13/sketch/links", sketch_case(links=True), check_run, 8, 200,
          "SketchOptimizer with one link", FIXED_SKETCH_LINKS),
+    Cell("C13/mesh/near-minimum", mesh_case(premin=True, dims_pool=DIMS_ROW), check_run, 4, 80,
+         "1-2 free clamps on vertices that the harness first moves to the minimum of the summed quality (own Nelder-Mead "
+         "on an own grid): the optimizer minimises the cells at the vertex only, so every step that is kept must have "
+         "passed the whole-grid comparison", FIXED_NEAR_MINIMUM),
     Cell("C13/mesh/fault", mesh_case(links=False, fault=True, dims_pool=DIMS_SMALL), check_fault, 5, 150,
          "dry run + run with ValueError('Degenerate Cell') at a drawn cell-quality evaluation: handled inside a step "
          "(grid restored) or raised with the mesh untouched", FIXED_FAULT_MESH),
